@@ -2,6 +2,7 @@ mod c04;
 mod c04wire;
 mod c13;
 mod c14;
+mod c16;
 mod driver;
 mod report;
 mod rng;
@@ -25,6 +26,12 @@ fn main() {
         "c04wire" => c04wire::run(&tier, seed, &driver, &work),
         "c13" => c13::run(&tier, seed, &driver, &work),
         "c14" => c14::run(&tier, seed, &driver, &work),
+        "c16" => {
+            // the real `sy` executable: built into the same target directory as this harness
+            let sibling = std::env::current_exe().ok().and_then(|p| p.parent().map(|d| d.join("sy"))).unwrap_or_default();
+            let sy = arg(&args, "--sy", &sibling.to_string_lossy());
+            c16::run(&tier, seed, &driver, &work, std::path::Path::new(&sy))
+        }
         _ => { eprintln!("unknown stream {}", stream); std::process::exit(2); }
     };
     std::fs::write(&out, serde_json::to_string_pretty(&rep.to_json()).unwrap()).unwrap();
